@@ -43,7 +43,7 @@ def run_impl(case):
         del BUNDLES[:]
         SAVING[0] = True
         sc.loop.create_task(proc.step_until_terminated())
-        _drive(sc, proc, case)
+        _drive_events(sc, proc, case)
         SAVING[0] = False
         ref = steps_of(trace)
         final_ref = _final(proc)
@@ -57,6 +57,8 @@ def run_impl(case):
         scripted.CURRENT.update(cfg=case, trace=trace2, actions=actions2)
         try:
             p2 = b.unbundle(plumpy.LoadSaveContext(loop=sc2.loop))
+            if p2.paused:
+                p2.play()
             sc2.loop.create_task(p2.step_until_terminated())
             _drive(sc2, p2, case, skip_resumes=_resumes_before(case, trace, pos))
             restored.append({'pos': pos, 'suffix_ok': steps_of(trace2) == ref[_count_steps(trace, pos):],
@@ -78,6 +80,24 @@ def _count_steps(trace, pos):
 def _resumes_before(case, trace, pos):
     """number of waits already resumed before the save point = number of 'entered waiting->running' before pos"""
     return sum(1 for e in trace[:pos] if e[0] == 'entered' and e[1] == 'waiting' and e[2] == 'running')
+
+
+def _drive_events(sc, proc, case):
+    """the live run of the restore experiment: the schedule of the case, event by event"""
+    import scripted
+    for ev in case['events']:
+        if ev[0] == 'tick':
+            sc.tick()
+        elif ev[0] == 'drain':
+            for _ in range(ev[1]):
+                if not sc.tick():
+                    break
+        elif ev[0] == 'ctl':
+            try:
+                scripted.do_ctl(proc, ev[1])
+            except Exception:  # noqa: BLE001
+                pass
+    sc.new_failures()
 
 
 def _drive(sc, proc, case, skip_resumes=0):
@@ -225,6 +245,13 @@ def generate(tier, rng, around=None):
             res = [e for e in c['events'] if e[0] == 'ctl'][0]
             ev = [['drain', 30]] + [res if o == 'resume' else ['ctl', [o] + ([None] if o == 'pause' else [])] for o in order] + [['drain', 30]]
             cases.append(dict(c, events=ev))
+    # a pause requested while an asynchronous step is in flight takes effect when the step returns its command: a checkpoint taken when
+    # the listeners are told of the pause must already hold the next step with its arguments
+    for ai in range(len(ARGS)):
+        for end in ENDS[:4]:
+            prog = {'run': S([('yield',), ('yield',)], ('continue', 's1', ARGS[ai][0], ARGS[ai][1])), 's1': S([], end)}
+            for nt in (1, 2):
+                cases.append({'prog': prog, 'events': [['tick']] * nt + [['ctl', ['pause', None]], ['drain', 30], ['ctl', ['play']], ['drain', 30]]})
     n = {'quick': 350, 'thorough': 4000, 'widen': 1500}[tier]
     for _ in range(n):
         k = rng.choice([2, 2, 3, 3, 4])
